@@ -269,6 +269,18 @@ def outsOfDescs (tag : Nat) (ds : List SrcDesc) (i : Nat) : Res Unit (List Nat) 
   | some d => if d.fetchable then .ok [tag + i] else .fail ()
   | none => .fail ()
 
+/-! ## Locating a mapping's local binary (`locateBinaries`, run by every fetch on its OWN profile)
+
+Names and build ids are numbers here (`0` = no build id / directly under the search path).  A tree
+entry `(dir, name, id)` is the file `<dir>/<name>` whose object file reports build id `id`.  The
+result depends on the mapping and the tree only — not on other sources, not on time — so it is
+part of the per-source outcome `outs i`.  (The harness generates trees in which at most one entry
+matches, so pprof's search ORDER among several matching files is not part of this spec.) -/
+def locate (tree : List (Nat × Nat × Nat)) (name buildID : Nat) : Option Nat :=
+  tree.findIdx? (fun e =>
+    (decide (buildID ≠ 0) && decide (e.1 = buildID) && decide (e.2.2 = buildID)) ||
+    (decide (e.1 = 0) && decide (e.2.1 = name) && (decide (buildID = 0) || decide (e.2.2 = buildID))))
+
 /-- What the model needs of the chunking facts regenerated from the source (`Gen/FetchConsts.lean`),
 as far as they were recognised (`none` = not recognised, then nothing is claimed): the chunk size
 is positive; consecutive chunks start exactly one chunk length apart (no gap, no overlap) and a
